@@ -26,16 +26,16 @@ import (
 // Op is one call of an actor's script (a real API call, see world.go for the vocabulary).
 type Op struct {
 	Kind   string `json:"k"`
-	Sess   int    `json:"s,omitempty"`   // session id (1-based); CRUD: session context, s*: the session
-	Lock   bool   `json:"l,omitempty"`   // ebegin: locked transaction
-	Stream int    `json:"st,omitempty"`  // stream slot
-	Fault  string `json:"f,omitempty"`   // precancel | cbPanic | cbErr
-	DB     string `json:"db,omitempty"`  // namespace override (watch scenarios)
-	Coll   string `json:"c,omitempty"`   //
-	Start  string `json:"sp,omitempty"`  // watch: now | resume:<slot> | after:<slot> | time:<slot> | time0
-	Scope  string `json:"sc,omitempty"`  // watch: client | db | coll
-	Inner  []Op   `json:"in,omitempty"`  // wtx: calls made by the callback
-	N      int    `json:"n,omitempty"`   // repetitions (stress) / retention parameter
+	Sess   int    `json:"s,omitempty"`  // session id (1-based); CRUD: session context, s*: the session
+	Lock   bool   `json:"l,omitempty"`  // ebegin: locked transaction
+	Stream int    `json:"st,omitempty"` // stream slot
+	Fault  string `json:"f,omitempty"`  // precancel | cbPanic | cbErr
+	DB     string `json:"db,omitempty"` // namespace override (watch scenarios)
+	Coll   string `json:"c,omitempty"`  //
+	Start  string `json:"sp,omitempty"` // watch: now | resume:<slot> | after:<slot> | time:<slot> | time0
+	Scope  string `json:"sc,omitempty"` // watch: client | db | coll
+	Inner  []Op   `json:"in,omitempty"` // wtx: calls made by the callback
+	N      int    `json:"n,omitempty"`  // repetitions (stress) / retention parameter
 }
 
 // Choice is one schedule element.
